@@ -6,6 +6,9 @@ import (
 	"runtime"
 
 	multiproof "github.com/crate-crypto/go-ipa"
+	"github.com/crate-crypto/go-ipa/bandersnatch/fr"
+	"github.com/crate-crypto/go-ipa/banderwagon"
+	"github.com/crate-crypto/go-ipa/common"
 
 	"verif/mon"
 	"verif/ref"
@@ -15,13 +18,13 @@ func init() {
 	register(&Check{
 		ID:    "C01",
 		Title: "Multiproof completeness: every honest set of openings verifies",
-		Rule: "honest opening sets: n in {1,2,3,W-1,W,W+1,2W-1,2W,2W+1,3W+5,100,257,1000(+5000 thorough)} for the child's NumCPU W; ten index patterns (all equal, consecutive, {0,255}, {3,200}, only 255, all 256 indices, descending, random with repeats, two adjacent, random); polynomials zero/constant/unit/all r-1/sparse/small/edge/low-degree/random incl. equal polynomials; " +
-			"commitments Z=1 / rescaled / sign-flipped / mixed, fresh objects / shared pointers / mixed; labels empty/usual/2kB/random bytes; children under NumCPU x GOMAXPROCS with H7 delays permuting worker arrival; each case: CreateMultiProof, CheckMultiProof on a fresh transcript, transcript states compared, commitments still in their class; a seeded sample re-verified by the reference verifier from the serialised bytes; " +
+		Rule: "honest opening sets: n in {1,2,3,W-1,W,W+1,2W-1,2W,2W+1,3W+5,100,257,1000, 255/256/512 at one or two evaluation points, 4097 on some children (+5000 and 65537 thorough)} for the child's NumCPU W; ten index patterns (all equal, consecutive, {0,255}, {3,200}, only 255, all 256 indices, descending, random with repeats, two adjacent, random); polynomials zero/constant/unit/all r-1/sparse/small/edge/low-degree/random incl. equal polynomials; " +
+			"commitments Z=1 / rescaled / sign-flipped / mixed, fresh objects / shared pointers / mixed; labels empty/usual/2kB/random bytes; children under NumCPU x GOMAXPROCS with H7 delays permuting worker arrival; each case: CreateMultiProof, CheckMultiProof on a fresh transcript, transcript states compared, commitments still in their class; the decoded proof verified again with the verifier's own argument objects (mixed representations); in a third of the cases error-path verifications (malformed proofs/statements) precede the honest one; a seeded sample re-verified by the reference verifier from the serialised bytes; " +
 			"a class is (n relative to W, #distinct indices class, index pattern, representation, pointer pattern, NumCPU, GOMAXPROCS); non-trivial = n >= 2",
 		Technique:        "runtime monitor on prover+verifier of the real code under varied NumCPU/GOMAXPROCS with hook-injected delays and arrival-order recording; independent reference verifier (math/big) on a sample",
 		MinEvals:         map[string]int64{"quick": 600, "thorough": 4000},
 		MinClasses:       map[string]int64{"quick": 300, "thorough": 2000},
-		RequiredCounters: []string{"proofs_verified_by_library", "proofs_verified_by_reference", "hook.multiproof.group.send", "cases_with_two_or_more_distinct_indices", "cases_with_n_not_multiple_of_W"},
+		RequiredCounters: []string{"proofs_verified_by_library", "proofs_verified_by_reference", "hook.multiproof.group.send", "cases_with_two_or_more_distinct_indices", "cases_with_n_not_multiple_of_W", "verified_with_verifier_own_objects", "error_path_verifications_before_honest_one"},
 		Assumptions:      []string{"commitments are produced by the library's Commit (its correctness is C05's subject)", "NumCPU above 16 cannot be produced here; the shape classes n<W, n=W, n=kW, n=kW+-1 are all reached with W<=16"},
 		Plan: func(tier string) []Child {
 			var out []Child
@@ -60,11 +63,18 @@ func runC01(c *mon.Ctx) {
 	polys := makePolys(env, prng, 10, 0, 1, 2, 3, 4, 5)
 	constPolys := makePolys(env, prng, 3, 1, 2, 4) // zero, constant, all r-1
 	sizes := append(sizesAround(w), 100, 129, 257, 1000, 1025)
+	sizes = append(sizes, 255, 256, 512) // with the one/two-point index patterns: exactly 255/256 openings at one evaluation point
+	if w%4 == 3 || (w == 16 && gmp == 4) {
+		sizes = append(sizes, 4097) // beyond 4096 openings (powers of r, chunked helpers), not a multiple of the task counts
+	}
 	if gmp > 16 {
 		sizes = []int{1, 2, 3, 7, 47, 49, 127, 129, 255, 321, 1025} // odd sizes around the MSM window thresholds: GOMAXPROCS far above NumCPU
 	}
 	if c.Thorough() && w%5 == 1 {
 		sizes = append(sizes, 5000)
+	}
+	if c.Thorough() && (w == 6 || w == 13) && gmp >= 4 {
+		sizes = append(sizes, 65537) // beyond 16-bit counts
 	}
 	if race {
 		sizes = []int{1, 2, 3, 4, 5, 9, 17, 100}
@@ -75,6 +85,12 @@ func runC01(c *mon.Ctx) {
 		pats := []int{0, 1, 2, 3, 4, 5, 6, 7, 8, 9}
 		if n >= 1000 {
 			pats = []int{5, 7, 9}
+		}
+		if n == 255 || n == 256 || n == 512 {
+			pats = []int{0, 2, 4}
+		}
+		if n == 4097 || n == 65537 {
+			pats = []int{7}
 		}
 		for _, pat := range pats {
 			caseNo++
@@ -138,6 +154,12 @@ func c01one(c *mon.Ctx, env *Env, s *statement, w, gmp int, rng *rand.Rand, case
 			break
 		}
 	}
+	// history: verifications that end in an error (malformed proof / statement shapes) come first in a third of the cases;
+	// their outcome is not judged here, only what they leave behind
+	if caseNo%3 == 1 {
+		c01poison(env, s, pr, rng)
+		c.Count("error_path_verifications_before_honest_one", 1)
+	}
 	ok, verr, vch := s.verify(env, pr)
 	switch {
 	case verr != nil:
@@ -163,9 +185,21 @@ func c01one(c *mon.Ctx, env *Env, s *statement, w, gmp int, rng *rand.Rand, case
 		c.Fail("honest-proof-not-decodable", "the serialised honest proof cannot be read back: "+err.Error(), det)
 	} else if ok2, err2, _ := s.verify(env, &pr2); !ok2 || err2 != nil {
 		c.Fail("decoded-honest-proof-rejected", fmt.Sprintf("the decoded honest proof is rejected (%s)", cls), det)
+	} else {
+		// a verifier has its own argument objects: commitments in any mix of representations (the prover normalised its
+		// own in place), claimed values and pointers of its own
+		v := *s
+		v.materialise(rng, 3, rng.Intn(3))
+		ok3, err3, vch3 := v.verify(env, &pr2)
+		if !ok3 || err3 != nil {
+			c.Fail("honest-proof-rejected/verifier-own-objects", fmt.Sprintf("the honest proof is rejected (ok=%v err=%v) when the verifier uses its own commitment objects in mixed representations (%s)", ok3, err3, cls), det)
+		} else if vch3.Cmp(pch) != 0 {
+			c.Fail("transcript-states-differ/verifier-own-objects", fmt.Sprintf("prover and verifier transcripts yield different next challenges when the verifier uses its own objects (%s)", cls), det)
+		}
+		c.Count("verified_with_verifier_own_objects", 1)
 	}
 	// independent verifier on a sample (small and large n alike)
-	if *refBudget > 0 && (caseNo%9 == 3 || s.n() == 3*w+5 && caseNo%2 == 0) && s.n() <= 300 {
+	if (*refBudget > 0 && (caseNo%9 == 3 || s.n() == 3*w+5 && caseNo%2 == 0) && s.n() <= 300) || s.n() > 4000 || (s.n() >= 255 && s.n() <= 512 && caseNo%3 == 0 && w%3 == 1) {
 		*refBudget--
 		rp, err := parseRefProof(pbytes)
 		if err != nil {
@@ -181,5 +215,39 @@ func c01one(c *mon.Ctx, env *Env, s *statement, w, gmp int, rng *rand.Rand, case
 	}
 	if caseNo == 2 {
 		c.Sample(det)
+	}
+}
+
+// c01poison calls the verifier with malformed proofs / statements derived from an honest one. Every call must come back
+// (a panic is contained and not judged here - C02 judges the verifier's decisions); what matters is the next honest call.
+func c01poison(env *Env, s *statement, pr *multiproof.MultiProof, rng *rand.Rand) {
+	cp := func() *multiproof.MultiProof {
+		b := &multiproof.MultiProof{D: pr.D}
+		b.IPA.A_scalar = pr.IPA.A_scalar
+		b.IPA.L = append([]banderwagon.Element(nil), pr.IPA.L...)
+		b.IPA.R = append([]banderwagon.Element(nil), pr.IPA.R...)
+		return b
+	}
+	for k := 0; k < 3; k++ {
+		bad := cp()
+		Cs, ys, zs := s.Cs, s.ys, s.zs
+		switch rng.Intn(7) {
+		case 0:
+			bad.IPA.L, bad.IPA.R = bad.IPA.L[:7], bad.IPA.R[:7]
+		case 1:
+			bad.IPA.L, bad.IPA.R = append(bad.IPA.L, bad.IPA.L[0]), append(bad.IPA.R, bad.IPA.R[0])
+		case 2:
+			bad.IPA.L, bad.IPA.R = nil, nil
+		case 3:
+			bad.IPA.R = bad.IPA.R[:5]
+		case 4:
+			ys = ys[:len(ys)-1]
+		case 5:
+			zs = zs[:len(zs)-1]
+		default:
+			one := fr.One()
+			bad.IPA.A_scalar.Add(&bad.IPA.A_scalar, &one) // a plain "false", no error
+		}
+		mon.Try(func() { multiproof.CheckMultiProof(common.NewTranscript(s.label), env.Conf, bad, Cs, ys, zs) })
 	}
 }
